@@ -1,4 +1,6 @@
 import Fcgi.Proofs.ChainAny
+import Fcgi.Proofs.ChainIgnore
+import Fcgi.Proofs.ChainZero
 import Fcgi.Props.C05Chain
 import Fcgi.Props.C04
 /-!
@@ -9,6 +11,19 @@ import Fcgi.Props.C04
    or no stream, parses in ignore mode, …), the bytes delivered to the caller are a prefix of the
    stream's content; for a Filter: a prefix of the `Stdin` content followed by a prefix of the `Data`
    content.  Engine: `Str.ops_ign` (an ignoring parser delivers nothing), `C05C.any_delivered`.
+2. `within_turn_replies`: the stream parser's share of (4) for a Responder turn that stops anywhere
+   (also mid-record) and skips to the record boundary as `close()` does — `set_stream(None)`, then
+   `parse(new, None)` / `compress` / `consume_output` —, the parser being given bytes of its own
+   request only (`WithinAll`): the replies it generated over the whole turn are exactly those owed
+   for the records `d` it consumed (`owedI id mc d`, read or skipped alike); with `Results` (the next
+   request parser answers `idleOwed mc u'`) this is the split `owedI d ++ idleOwed u'`.
+   Engine: `E2E.R2` / `E2E.parse_r2` (Proofs/E2EPrefixStr), wired by `r2_start`, `r2_ops`,
+   `ignore_replies` (Proofs/ChainIgnore).
+3. (`filter_delivered_any` above.)
+4. `k_requests_any_reads0`: the chain in which every request parser is first called with NO new
+   input (`parse(0)`, as the async `parse_request` does) and then fed chunks — possibly none: the
+   fully buffered preamble.  `turn0_eq`: such a turn IS the turn of `C05C.turn` with the look-ahead
+   presented as the first chunk of an empty-buffered parser, so the same theorem holds.
 -/
 namespace Fcgi.C05C
 open Fcgi Fcgi.Req Fcgi.Str Fcgi.Spec Fcgi.C03SI
@@ -120,5 +135,51 @@ theorem filter_delivered_any {cap mc : Nat} {q : Spec1} {later : List Rec} {t : 
       simp [RefOut.pre]
     rw [hsw] at hB
     exact hB
+
+/-! ## 2. The replies of a turn that skips to the record boundary -/
+
+/-- **(4), the stream parser's share, for a `WithinAll` turn of a Responder.**  `t.ops = H ++
+set_stream(None) :: N`: `H` any legal history whose `set_stream` calls name a stream, `N` the skip.
+`hfit`: the bodies of the management `GetValues` records among the request's records fit the buffer
+(as in the async theorems). -/
+theorem within_turn_replies {cap mc : Nat} {q : Spec1} {later : List Rec} {t : Turn} {o : Obs} (hq : q.OK)
+    (hrole : q.p.role = 1) (hf : Front cap mc q later t o) (h8 : 8 ≤ cap)
+    (hrecs : ∀ r ∈ q.srecs, E2E.StdinRec q.p.id r) (hfit : NoiseFits cap q.srecs)
+    (hin : o.sp.raw ++ C05.fedBytes t.ops <+: serAll q.srecs)
+    {H N : List Op} (hops : t.ops = H ++ Op.setStream none :: N) (hH : C03SS.SetSome H) (hN : SkipOps N)
+    (hb : o.spEnd.isRecordBoundary = true) :
+    ∃ d u', q.srecs = d ++ u' ∧ C03S.grownAll o.sp t.ops = E2E.owedI q.p.id mc d ∧
+      o.sp.raw ++ C05.fedBytes t.ops = serAll d ++ o.spEnd.raw ∧ o.spEnd.raw <+: serAll u' := by
+  obtain ⟨h0, -, hl, -⟩ := front_start hq (Or.inl hrole) hf
+  obtain ⟨hsp, -, hend, -, -⟩ := hf
+  rw [hrole] at h0
+  have hc : E2E.R2Ctx q.p.id mc cap q.srecs := ⟨hrecs, wf_id_lt hq.1, hfit, h8⟩
+  have hns : NoSwitch ⟨q.p.id, 1, 5, mc⟩ H := by
+    intro st hm
+    obtain ⟨s', rfl⟩ := hH st hm
+    exact ⟨s', rfl, no_later_responder s'⟩
+  obtain ⟨fut, hfut⟩ := hin
+  rw [fedBytes_eq, hops] at hfut
+  rw [hops] at hl
+  rw [hend, hops] at hb
+  obtain ⟨d, rs, h1, h2, h3, h4⟩ := ignore_replies hc h0 (by rw [hsp]; rfl) hl hns hN hfut hb
+  refine ⟨d, rs, h1, by rw [hops]; exact h2, by rw [fedBytes_eq, hend, hops]; exact h3, ?_⟩
+  rw [hend, hops]
+  exact ⟨fut, h4⟩
+
+/-! ## 4. Every turn starts with `parse(0)`; the chunk list may be empty -/
+
+/-- **k requests, any reads, `parse(0)` first** — `k_requests_any_reads` for `chain0`. -/
+theorem k_requests_any_reads0 {cap mc : Nat} {ts : List Turn} {qs : List Spec1} {os : List Obs}
+    {rp rpK : Req.Parser} {u : List Rec} {fut : Bytes}
+    (hqs : ∀ q ∈ qs, q.OK) (hp : PInv rp) (hst : rp.state = .header) (hmc : rp.maxConns = mc)
+    (hcap : rp.cap = cap) (hu : ∀ e ∈ u, IdleNoise e) (hlen : ts.length ≤ qs.length)
+    (hwire : rp.input ++ ts.flatMap Turn.fed ++ fut = serAll (u ++ wireRecs qs))
+    (hleg : ChainLegal0 rp ts) (hch : chain0 rp ts = some (os, rpK)) (hno : NoOverruns cap mc qs ts os) :
+    os.map (·.r) = (qs.take os.length).map (·.p.request) ∧ Results cap mc u qs ts os ∧
+    (∃ uK, (∀ e ∈ uK, IdleNoise e) ∧ rpK.input ++ fut = serAll (uK ++ wireRecs (qs.drop ts.length))) ∧
+    PInv rpK ∧ rpK.state = .header ∧ rpK.maxConns = mc ∧ rpK.cap = cap := by
+  obtain ⟨h1, h2, h3, h4, h5, h6⟩ := chain0_spec ts qs os rp u fut rpK hqs hp hst hmc hcap hu hlen hwire hleg hch hno
+  exact ⟨results_requests os qs ts u h1, h1, h6, h2, h3, h4, h5⟩
 
 end Fcgi.C05C
